@@ -217,11 +217,11 @@ impl fmt::Display for Formatter {
                     }
                     Token::Weekday => {
                         write_sep(f, i, &self.format)?;
-                        write!(f, "{}", self.epoch.weekday())?
+                        write!(f, "{}", self.epoch.gregorian_weekday())?
                     }
                     Token::WeekdayShort => {
                         write_sep(f, i, &self.format)?;
-                        write!(f, "{:x}", self.epoch.weekday())?
+                        write!(f, "{:x}", self.epoch.gregorian_weekday())?
                     }
                     Token::WeekdayDecimal => {
                         write_sep(f, i, &self.format)?;
@@ -292,11 +292,11 @@ impl fmt::Display for Formatter {
                     }
                     Token::Weekday => {
                         write_sep(f, i, &self.format)?;
-                        write!(f, "{}", self.epoch.weekday())?
+                        write!(f, "{}", self.epoch.gregorian_weekday())?
                     }
                     Token::WeekdayShort => {
                         write_sep(f, i, &self.format)?;
-                        write!(f, "{:x}", self.epoch.weekday())?
+                        write!(f, "{:x}", self.epoch.gregorian_weekday())?
                     }
                     _ => unreachable!(),
                 };
